@@ -270,3 +270,31 @@ fn client_backoff_resets_only_after_stable_connection() {
     for f in fails.iter().take(20) { println!("BOUNDED-FAIL client_backoff_resets_only_after_stable_connection {}", f); }
     assert!(fails.is_empty());
 }
+
+/// C11 "no configuration value the builders accept can make the client panic": the connect timeout is added to an Instant when
+/// the transport comes up (establishment deadline handed to the engine).
+#[test]
+fn client_extreme_connect_timeout_never_panics() {
+    let mut cases = 0u64; let mut fails: Vec<String> = Vec::new();
+    for t in [Duration::MAX, Duration::from_secs(u64::MAX), Duration::from_secs(1 << 62), Duration::ZERO] {
+        cases += 1;
+        let r = std::panic::catch_unwind(|| -> Result<(), String> {
+            let mut ob = MqttClientOptions::builder();
+            ob.with_connect_timeout(t);
+            let (mut c, _log) = new_client(ob.build());
+            c.handle_incoming_operation(OperationOptions::Start(None));
+            if let Some(next) = c.compute_optional_state_transition() { c.transition_to_state(next).map_err(|e| format!("to connecting {:?}", e))?; }
+            if c.get_current_state() != ClientImplState::Connecting { return Err("not connecting after start".to_string()); }
+            c.transition_to_state(ClientImplState::Connected).map_err(|e| format!("to connected {:?}", e))?;
+            Ok(())
+        });
+        match r {
+            Ok(Ok(())) => {}
+            Ok(Err(e)) => fails.push(format!("connect_timeout={:?}: {}", t, e)),
+            Err(_) => fails.push(format!("F-DURATION-OVERFLOW connect_timeout={:?}: PANIC when the transport comes up (Instant + Duration overflow)", t)),
+        }
+    }
+    println!("BOUNDED client_extreme_connect_timeout_never_panics cases={} bound=connect timeouts {{Duration::MAX, u64::MAX s, 2^62 s, 0}}; start, transport up", cases);
+    for f in &fails { println!("BOUNDED-FAIL client_extreme_connect_timeout_never_panics {}", f); }
+    assert!(fails.is_empty());
+}
